@@ -24,7 +24,7 @@ def exitSiteOk (s : String × Nat × String × String × Option Nat) : Bool :=
   | some v => documentedStatus v
   | none => statusExprOk s.2.2.2.1
 
-theorem C06_status_set : Gen.exitSites.all exitSiteOk = true := by decide
+theorem C06_status_set : Gen.exitSites.all exitSiteOk = true := by decide +kernel
 
 /-- the first do/while of `uncrustify_file()`: `changed k` tells whether iteration `k` changed anything -/
 def nlLoopIters (changed : Nat → Bool) : Nat → Nat → Nat → Nat
@@ -41,6 +41,6 @@ theorem C06_nl_loop_bounded (changed : Nat → Bool) : nlLoopIters changed 10 3 
 
 example : nlLoopIters (fun _ => true) 10 3 0 = 4 := by decide
 example : nlLoopIters (fun _ => false) 10 3 0 = 1 := by decide
-example : Gen.exitSites.length > 100 := by decide
+example : Gen.exitSites.length > 100 := by decide +kernel
 
 end Unc
